@@ -283,7 +283,18 @@ func runC09(c *ctx) error {
 		variants := keyVariants(k, others, rng)
 		matching := variants[0]
 		payloads := [][]byte{[]byte(`{"a":1}`), []byte("x"), []byte(strings.Repeat("payload-", 20))}
+		payloads0 := payloads[0]
 		headers := []string{fmt.Sprintf(`{"alg":"%s"}`, k.Type.Alg()), fmt.Sprintf(`{"alg":"%s","kid":"key-1"}`, k.Type.Alg())}
+		// compact, sorted headers with a NUMERIC member (iat and the like), signed over the header as spelled - what this
+		// library's own signing code and any RFC 7515 signer produce.  The verifier rebuilds the signing input from the
+		// DECODED header, and go-jose re-marshals numbers through float64 with the 'g' format: from 1e6 on (and below
+		// 1e-4) the text changes and a genuine JWS no longer verifies (known finding F20); below that it must verify.
+		for _, num := range []string{"0", "7", "999999", "0.5", "-12.25"} {
+			add("genuine:numeric-header-member-kept-by-the-decoder", world.CompactJWS(fmt.Sprintf(`{"alg":"%s","iat":%s}`, k.Type.Alg(), num), payloads0, k), matching, "accept")
+		}
+		for _, num := range []string{"1000000", "1700000000", "12345678.5", "0.00001"} {
+			add("genuine:numeric-header-member-reformatted-by-the-decoder", world.CompactJWS(fmt.Sprintf(`{"alg":"%s","iat":%s}`, k.Type.Alg(), num), payloads0, k), matching, "accept")
+		}
 		for hi, hdr := range headers {
 			for pi, pl := range payloads {
 				if !thorough && (hi+pi)%2 == 1 {
